@@ -66,6 +66,8 @@ FILTERS = {
                   '</C:prop-filter></C:comp-filter>'),
     "declined": flt('<C:comp-filter name="VEVENT"><C:prop-filter name="ATTENDEE"><C:param-filter name="PARTSTAT">'
                     '<C:text-match>DECLINED</C:text-match></C:param-filter></C:prop-filter></C:comp-filter>'),
+    "noCompleted": flt('<C:comp-filter name="VTODO"><C:prop-filter name="COMPLETED"><C:is-not-defined/>'
+                       '</C:prop-filter></C:comp-filter>'),
     # presence / absence of properties whose value may be empty or zero
     "hasLoc": flt('<C:comp-filter name="VEVENT"><C:prop-filter name="LOCATION"/></C:comp-filter>'),
     "hasPrio": flt('<C:comp-filter name="VEVENT"><C:prop-filter name="PRIORITY"/></C:comp-filter>'),
@@ -120,6 +122,8 @@ BODIES = {
     "dur": (lambda U: cal(ev(U, "Gamma", dtend=None, extra=("DURATION:PT2H",))), "plain"),
     "todo": (lambda U: cal(ev(U, "Task", comp="VTODO", dtstart="20200110T100000Z", dtend=None,
                     extra=("DUE:20200112T100000Z",))), "plain"),
+    "todoDone": (lambda U: cal(ev(U, "Task done", comp="VTODO", dtstart="20200108T100000Z", dtend=None,
+                        extra=("DUE:20200109T100000Z", "COMPLETED:20200109T090000Z", "CREATED:20200101T000000Z"))), "plain"),
     "todoN": (lambda U: cal(ev(U, "Task no dates", comp="VTODO", dtstart=None, dtend=None)), "plain"),
     "jour": (lambda U: cal(ev(U, "Note", comp="VJOURNAL", dtstart="20200105T100000Z", dtend=None)), "plain"),
     "override": (lambda U: cal(ev(U, "Alpha", dtstart="20200310T100000Z", dtend="20200310T110000Z",
@@ -328,7 +332,8 @@ def random_ops(seed, length=40):
                 (["fA", "fB", "fC", "fD", "notAlpha", "sumMoved"], ["m1", "m2", "m3", "m4", "override", "empty"]),
                 (["tJan", "tFeb", "tJanSum", "ptr"], ["jan", "feb", "edge", "allday", "dur", "override", "tz"]),
                 (["hasLoc", "noLoc", "notLoc1", "fD"], ["m1", "m2", "m4", "empty", "janB", "jan"]),
-                (["hasPrio", "noSeq", "catTwo"], ["zero", "cat2", "jan", "empty"])]
+                (["hasPrio", "noSeq", "catTwo"], ["zero", "cat2", "jan", "empty"]),
+                (["noCompleted", "todoJan", "todo", "noTodo"], ["todo", "todoN", "todoDone", "jan"])]
     bodies = list(BODIES)
     favoured = bodies
     if rng.random() < 0.6:
